@@ -16,7 +16,8 @@ bit-identical to the unobserved one.  Floats become tags: equal <=> equal after 
     init:  64   * eps * K                      (worst observed 1.9)
     iter:  2e4  * eps * K * max(1, nu_max)     (worst observed ~7e2)
 K = (max_j max|x_j|/sd_j) * cond(correlation) of the worse-conditioned of X and g(X): the number of roundings of the
-data's REPRESENTATION that one unit of its standardised shape is worth; translations are shrunk until K <= 1e8.
+data's REPRESENTATION that one unit of its standardised shape is worth; translations (drawn up to 1e6) are shrunk by
+factors of 10 until the pair's iteration tolerance is <= 1e-5 (or K(g(X)) <= 4 K(X) when X itself is worse).
 d = 1 with dyadic scaling and no translation is compared bit for bit.  Discrete decisions that differ inside the
 pair's rounding band (or where the real value of the branch test is within 1% of zero) are near-ties: TLC reports
 TIE, the case is re-drawn with another map and counted inconclusive, never a violation.
@@ -58,7 +59,7 @@ def case_data(seed, k):
     return cls, d, n, so.make_data(rng, cls, d, n)
 
 
-def case_map(seed, k, slot, attempt, d, X, nslots):
+def case_map(seed, k, slot, attempt, d, X, nslots, numax=1.0):
     rng = np.random.default_rng([seed, 1919, k + 1, slot, attempt])
     kind = MAP_KINDS[(k + 5 * slot + 3 * attempt) % len(MAP_KINDS)]
     perm = None
@@ -73,12 +74,23 @@ def case_map(seed, k, slot, attempt, d, X, nslots):
             if perm == list(range(d)):
                 perm = perm[1:] + perm[:1]
     g = so.make_map(rng, d, kind, perm=perm)
-    g, _ = so.fit_budget(g, X)
+    g, _ = so.fit_budget(g, X, numax)
     return g
 
 
 def _jg(g):
     return {"s": [float(v) for v in g["s"]], "t": [float(v) for v in g["t"]], "p": g["p"], "dyadic": g["dyadic"], "kind": g["kind"]}
+
+
+def modes_item(out, obs, u, w, labels, nm, fb, via, k, cls, d, n):
+    if so.thin_support(obs, d):  # the weighted resampling left some fit with fewer than 4d distinct points: outside the quantifier
+        oc = so.outcome(obs)
+        out["items"].append({"kind": "degen", "info": {"what": "thin-support:" + via, "outcome": oc}})
+        out["meta"].append({"what": "degen", "k": k, "d": d, "case": "thin-support:" + via, "outcome": oc})
+        return
+    out["items"].append({"kind": "modes", "m": so.project_modes(obs, u, w, labels, nm, fb)})
+    out["meta"].append({"what": "modes", "via": via, "k": k, "cls": cls, "d": d, "n": n, "raised": obs["raised"],
+                        "raw_dof": [f["out"][2] if f["out"] else None for f in obs["fits"]]})
 
 
 def job(j):
@@ -90,8 +102,9 @@ def job(j):
     cls, d, n, X = case_data(seed, k)
     out = {"k": k, "cls": cls, "d": d, "n": n, "items": [], "meta": []}
     A = so.observe_fit(ts, X)
+    numax = max([1.0] + so._finite_nus(A))
     for slot, attempt in j["maps"]:
-        g = case_map(seed, k, slot, attempt, d, X, j["nslots"])
+        g = case_map(seed, k, slot, attempt, d, X, j["nslots"], numax)
         Y = so.apply_map(g, X)
         B = so.observe_fit(ts, Y)
         item, diag = so.project_pair(g, X, Y, A, B)
@@ -106,9 +119,7 @@ def job(j):
         sd = int(rng.integers(0, 2 ** 31 - 1))
         # (a) from_global
         og = so.observe_modes(tm, ts, X, w, fallback=fb, seed=sd)
-        out["items"].append({"kind": "modes", "m": so.project_modes(og, X, w, None, None, fb)})
-        out["meta"].append({"what": "modes", "via": "from_global", "k": k, "cls": cls, "d": d, "n": n, "raised": og["raised"],
-                            "raw_dof": [f["out"][2] for f in og["fits"]]})
+        modes_item(out, og, X, w, None, None, fb, "from_global", k, cls, d, n)
         # (b) the same construction on g(X) under the same ambient seed resamples the same rows: the fit inside is coupled by R(g)
         g = case_map(seed, k, 97, 0, d, X, j["nslots"])
         Y = so.apply_map(g, X)
@@ -117,7 +128,7 @@ def job(j):
             XA, XB = og["fits"][0]["data"], ogb["fits"][0]["data"]
             if XA.shape == XB.shape and np.array_equal(og["choices"][0]["idx"], ogb["choices"][0]["idx"]):
                 YA = so.apply_map(g, XA)
-                if np.array_equal(YA, XB) and np.all(XA.std(axis=0) > 0):
+                if np.array_equal(YA, XB) and np.all(XA.std(axis=0) > 0) and len(np.unique(XA, axis=0)) >= 4 * d:  # n >= 4d is asked of the support
                     item, diag = so.project_pair(g, XA, XB, og["fits"][0]["run"], ogb["fits"][0]["run"])
                     out["items"].append(item)
                     out["meta"].append({"what": "pair", "via": "from_global", "k": k, "slot": 97, "attempt": 0, "cls": cls + "+resampled", "d": d,
@@ -135,9 +146,7 @@ def job(j):
                 if not np.any(w2[labels == lab] > 0):
                     w2[np.where(labels == lab)[0][0]] = 1.0
             op = so.observe_modes(tm, ts, X, w2, labels=labels, n_modes=nm, fallback=fb, seed=sd + 1, observe=False)
-            out["items"].append({"kind": "modes", "m": so.project_modes(op, X, w2, labels, nm, fb)})
-            out["meta"].append({"what": "modes", "via": "from_particles", "k": k, "cls": cls, "d": d, "n": n, "raised": op["raised"],
-                                "raw_dof": [f["out"][2] for f in op["fits"]]})
+            modes_item(out, op, X, w2, labels, nm, fb, "from_particles", k, cls, d, n)
     if j.get("degen"):
         rng = np.random.default_rng([seed, 1234, k + 1])
         what = j["degen"]
@@ -425,7 +434,7 @@ def main():
         "classes": classes, "dimensions": {str(k): v for k, v in sorted(dims.items())}, "map_kinds": kinds_seen,
         "permutations_d_le_3_covered": sorted([list(p) for p in perms_seen], key=repr),
         "near_tie_cases_redrawn": len(tie_cases), "inconclusive_near_ties": inconclusive,
-        "tolerance": {"init": "64*eps*K", "iter": "2e4*eps*K*max(1,nu_max)", "K_max": so.K_MAX,
+        "tolerance": {"init": "64*eps*K", "iter": "2e4*eps*K*max(1,nu_max)", "target": so.TOL_TARGET,
                       "iter_tol_quantiles": {"p50": q(0.5), "p90": q(0.9), "p99": q(0.99), "max": tols[-1] if tols else None}},
         "worst_observed_error": worst,
         "worst_observed_error_in_units": {"unit": "eps*K (init), eps*K*max(1,nu_max) (iter)", **worst_norm},
